@@ -394,7 +394,7 @@ impl Property for C43 {
         "the estimate 'just before steering' is obtained by applying LinkFilter::progress_time and LinkFilter::measurement (the two operations KalmanLink::measurement performs before steering) to a copy of the controller's filter",
     ];
     const QUICK_CASES: u32 = 1_000_000;
-    const THOROUGH_CASES: u32 = 8_000_000;
+    const THOROUGH_CASES: u32 = 41_000_000;
 
     fn strategy(_tier: Tier) -> BoxedStrategy<Case> {
         let offset = || prop_oneof![6 => sci_signed(-7, 1), 2 => sci_signed(-7, 3)];
